@@ -58,6 +58,8 @@ impl TraitHandler for HashStructHandler {
 
         let ident = &ast.ident;
 
+        let hasher = super::hasher_generic_ident(ast);
+
         let bound = type_attribute.bound.into_where_predicates_by_generic_parameters_check_types(
             &ast.generics.params,
             &syn::parse2(quote!(::core::hash::Hash)).unwrap(),
@@ -77,7 +79,7 @@ impl TraitHandler for HashStructHandler {
         token_stream.extend(quote! {
             impl #impl_generics ::core::hash::Hash for #ident #ty_generics #where_clause {
                 #[inline]
-                fn hash<H: ::core::hash::Hasher>(&self, state: &mut H) {
+                fn hash<#hasher: ::core::hash::Hasher>(&self, state: &mut #hasher) {
                     #hash_token_stream
                 }
             }
